@@ -49,8 +49,19 @@ func (c CaseSpec) Str(k string, def string) string {
 	return def
 }
 
+// pinned returns the (tier, seed, index) that determine the case's random
+// choices: its own, unless the case is a pinned copy of a case of another run
+// (a recorded history kept in every tier and at every seed).
+func (c CaseSpec) pinned() (string, int64, int) {
+	if t, ok := c.S["pin_tier"]; ok {
+		return t, c.P["pin_seed"], int(c.P["pin_index"])
+	}
+	return c.Tier, c.Seed, c.Index
+}
+
 func (c CaseSpec) rng(salt string) *rand.Rand {
-	h := sha256.Sum256([]byte(fmt.Sprintf("%s|%s|%d|%d|%s|%s", c.Prop, c.Tier, c.Seed, c.Index, c.Kind, salt)))
+	tier, seed, index := c.pinned()
+	h := sha256.Sum256([]byte(fmt.Sprintf("%s|%s|%d|%d|%s|%s", c.Prop, tier, seed, index, c.Kind, salt)))
 	var s int64
 	for i := 0; i < 8; i++ {
 		s = s<<8 | int64(h[i])
